@@ -145,16 +145,24 @@ def run(ctx):
     rep.rule('R13.clock', 'time is read only through the module-level '
              'replaceable clock `now`')
     cls = world.cls(MOD, 'StopWatch')
+    for method in METHODS:
+        if cls.lookup(method)[0] is None:
+            raise AnalysisError('anchor vanished: StopWatch.%s' % method)
+    if not _private_layout(world, cls):
+        # the watch no longer stores its state in the attributes the
+        # one-step table pokes: the table is not built; the sequence form
+        # (public API only) decides the same transitions
+        rep.case({'one-step table': 'private layout not recognised; '
+                  'decided by R13.seq'}, ('layout', 'unread'))
+        now_v = world.get(MOD, 'now')
+        rep.check('R13.clock', 'timeutils.now',
+                  getattr(now_v, 'name', None) == 'time.monotonic',
+                  'module-level clock is %r' % (now_v,))
+        _sequences(ctx)
+        return
     split_cls = world.cls(MOD, 'Split')
     started_tag, _ = cls.lookup('_STARTED')
     stopped_tag, _ = cls.lookup('_STOPPED')
-    if not isinstance(started_tag, K) or not isinstance(stopped_tag, K) or \
-            started_tag == stopped_tag or started_tag.v is None or \
-            stopped_tag.v is None:
-        rep.check('R13.table', 'StopWatch._STARTED/_STOPPED', False,
-                  'state tags are not two distinct non-None constants: %r %r'
-                  % (started_tag, stopped_tag))
-        return
     now_v = world.get(MOD, 'now')
     clock_name = getattr(now_v, 'name', None)
     rep.check('R13.clock', 'timeutils.now', clock_name == 'time.monotonic',
@@ -183,6 +191,43 @@ def run(ctx):
                                   has_stop, has_dur, has_split, kw,
                                   (t_start, t_stop, dur, maxi, e0))
     rep.count('abstract (method,state) cases', n_cases, floor=100)
+    _sequences(ctx)
+
+
+def _private_layout(world, cls):
+    """The layout the one-step table is written for: five private
+    attributes set by the constructor, two state tags, Split(_elapsed,
+    _length)."""
+    from ..core.absint import AbsRaise, Inexact
+    import os
+    if os.environ.get('SA_C13_SEQUENCES_ONLY'):
+        return False        # self-test of the sequence form on its own
+    try:
+        split_cls = world.cls(MOD, 'Split')
+    except AnalysisError:
+        return False
+    a, _o = cls.lookup('_STARTED')
+    b, _o = cls.lookup('_STOPPED')
+    if not isinstance(a, K) or not isinstance(b, K) or a == b or \
+            a.v is None or b.v is None:
+        return False
+    interp = Interp(world, inline_depth=4)
+    probe = {}
+
+    def thunk(i):
+        probe['watch'] = i.call(cls, [])
+        probe['split'] = i.call(split_cls, [K(1.0), K(1.0)])
+        return K(None)
+    try:
+        outs = interp.explore(thunk)
+    except (AnalysisError, AbsRaise, Inexact):
+        return False
+    if len(outs) != 1 or outs[0].kind != 'return' or not outs[0].exact:
+        return False
+    w, sp = probe.get('watch'), probe.get('split')
+    return isinstance(w, Obj) and set(w.fields) == {
+        '_state', '_started_at', '_stopped_at', '_splits', '_duration'} \
+        and isinstance(sp, Obj) and set(sp.fields) == {'_elapsed', '_length'}
 
 
 def _case(ctx, cls, split_cls, method, state, tags, has_stop, has_dur,
@@ -489,3 +534,375 @@ def _cmp_value(v, want, val, obj, nows):
     if g != want:
         return 'returns %r, required %r' % (g, want)
     return None
+
+
+# ---------------------------------------------------------------------------
+# Sequence form of the table: states are reached through the public API and
+# observed through it, so nothing depends on how a watch stores its state.
+
+PREFIXES = (
+    ('new', ()), ('started', ('start',)),
+    ('started, one split', ('start', 'split')),
+    ('started, two splits', ('start', 'split', 'split')),
+    ('stopped', ('start', 'stop')),
+    ('stopped, one split', ('start', 'split', 'stop')),
+    ('stopped, two splits', ('start', 'split', 'split', 'stop')),
+    ('resumed', ('start', 'stop', 'resume')),
+    ('resumed, one split', ('start', 'split', 'stop', 'resume')),
+    # queries in between (a watch that caches an answer shows here)
+    ('resumed after queries', ('start', 'stop', 'expired', 'elapsed',
+                               'has_stopped', 'resume')),
+    ('stopped again after queries', ('start', 'stop', 'expired', 'elapsed',
+                                     'resume', 'expired', 'stop')),
+    ('restarted', ('start', 'split', 'stop', 'restart')),
+    ('entered twice', ('__enter__', 'split', '__enter__')),
+)
+DUR, MAXI = T('sym', 'duration'), T('sym', 'maximum')
+
+
+class RefWatch:
+    """The watch of the property statement, driven with the clock readings
+    the implementation took in each call."""
+
+    def __init__(self, duration):
+        self.duration = duration
+        self.state = None
+        self.started = self.stopped = None
+        self.splits = []
+
+    def _elapsed(self, reads):
+        if self.state == 'STOPPED':
+            return max(0.0, self.stopped - self.started)
+        if self.state == 'STARTED':
+            if not reads:
+                raise AnalysisError('no clock reading in a call that needs '
+                                    'one')
+            return max(0.0, reads[-1] - self.started)
+        raise RuntimeError()
+
+    def observe(self, reads):
+        out = [self.state == 'STARTED', self.state == 'STOPPED',
+               tuple(self.splits)]
+        if self.state is not None:
+            out.append(self._elapsed(reads))
+        return out
+
+    def call(self, method, args, reads):
+        st = self.state
+        if method in ('start', '__enter__'):
+            if st != 'STARTED':
+                self._begin(reads)
+            return 'self'
+        if method == 'restart':
+            self._begin(reads)
+            return 'self'
+        if method == 'stop':
+            if st == 'STOPPED':
+                return 'self'
+            if st != 'STARTED':
+                raise RuntimeError()
+            self.stopped, self.state = self._now(reads), 'STOPPED'
+            return 'self'
+        if method == '__exit__':
+            if st == 'STARTED':
+                self.stopped, self.state = self._now(reads), 'STOPPED'
+            return 'falsy'
+        if method == 'resume':
+            if st != 'STOPPED':
+                raise RuntimeError()
+            self.state = 'STARTED'
+            return 'self'
+        if method == 'has_started':
+            return st == 'STARTED'
+        if method == 'has_stopped':
+            return st == 'STOPPED'
+        if method == 'splits':
+            return ('splits', tuple(self.splits))
+        if method in ('leftover', 'split') and st != 'STARTED':
+            raise RuntimeError()
+        if st is None:
+            raise RuntimeError()
+        if method == 'leftover' and self.duration is None:
+            if args.get('return_none'):
+                return None
+            raise RuntimeError()
+        if method == 'expired' and self.duration is None:
+            return False
+        e = self._elapsed(reads)
+        if method == 'elapsed':
+            m = args.get('maximum')
+            return e if m is None else min(e, m)
+        if method == 'leftover':
+            return max(0.0, self.duration - e)
+        if method == 'expired':
+            return e > self.duration
+        if method == 'split':
+            length = max(0.0, e - self.splits[-1][0]) if self.splits else e
+            self.splits.append((e, length))
+            return ('split', e, length)
+        raise AnalysisError('reference watch has no method %s' % method)
+
+    def _now(self, reads):
+        if not reads:
+            raise AnalysisError('no clock reading in a call that needs one')
+        return reads[-1]
+
+    def _begin(self, reads):
+        self.started, self.stopped = self._now(reads), None
+        self.state, self.splits = 'STARTED', []
+
+
+def _sequences(ctx):
+    """R13.seq: prefix (reaching a state through the public API) x method x
+    arguments x duration, observed through the public API afterwards."""
+    from ..core.absint import AbsRaise
+    from ..core.table import extract, inexact_notes, outcome_at, \
+        outcome_value
+    rep, world = ctx.report, ctx.world
+    rep.rule('R13.seq', 'after any prefix of public calls, every public '
+             'method answers and leaves the watch (as seen through '
+             'has_started / has_stopped / splits / elapsed) as the watch of '
+             'the property statement does; the watch is unchanged after a '
+             'call that raises')
+    cls = world.cls(MOD, 'StopWatch')
+    grid = GRID_THOROUGH if ctx.thorough else GRID_QUICK
+    n_cases = 0
+    for pname, prefix in PREFIXES:
+        for method, arglist in sorted(METHODS.items()):
+            for kw in arglist:
+                for has_dur in (False, True):
+                    n_cases += 1
+                    _sequence_case(ctx, cls, pname, prefix, method, kw,
+                                   has_dur, grid, extract, inexact_notes,
+                                   outcome_at, outcome_value, AbsRaise)
+    rep.count('call-sequence cases', n_cases, floor=200)
+
+
+def _sequence_case(ctx, cls, pname, prefix, method, kw, has_dur, grid,
+                   extract, inexact_notes, outcome_at, outcome_value,
+                   AbsRaise):
+    rep, world = ctx.report, ctx.world
+    label = 'after [%s] %s(%s)%s' % (
+        pname, method, ', '.join('%s=%s' % kv for kv in sorted(kw.items())),
+        ' on a watch with a duration' if has_dur else '')
+    key = 'StopWatch.%s[after %s]' % (method, pname.split(',')[0])
+    holder = {}
+
+    def thunk(interp):
+        st = {'clock': 0, 'step': -1, 'reads': {}}
+        holder['st'] = st
+
+        def on_call(i, name, fv, args, kwargs):
+            if name == 'time.monotonic':
+                t = T('sym', 'clock%d' % st['clock'])
+                i.types[t] = 'float'
+                st['reads'].setdefault(st['step'], []).append(t)
+                st['clock'] += 1
+                return t
+            return NotImplemented
+        interp.on_call = on_call
+        interp.types[DUR] = interp.types[MAXI] = 'float'
+        watch = interp.call(cls, [DUR] if has_dur else [])
+        for i, m in enumerate(prefix):
+            st['step'] = i
+            try:
+                interp.call(interp.get_attr(watch, m), [])
+            except AbsRaise:
+                pass
+        st['step'] = 'call'
+        args = [K(None)] * 3 if method == '__exit__' else []
+        kwargs = {k: (MAXI if v == 'M' else K(v)) for k, v in kw.items()}
+        try:
+            if method == 'splits':
+                r = interp.get_attr(watch, 'splits')
+            else:
+                r = interp.call(interp.get_attr(watch, method), args,
+                                kwargs)
+            if r is watch:
+                r = K('<the watch itself>')
+            elif isinstance(r, Obj):
+                r = TupleV([K('<split>'), interp.get_attr(r, 'elapsed'),
+                            interp.get_attr(r, 'length')])
+            elif isinstance(r, (TupleV, ListV)) or (
+                    isinstance(r, K) and isinstance(r.v, tuple)):
+                r = TupleV([K('<splits>'), K(len(interp.iterate(r)))])
+            res = TupleV([K('return'), r])
+        except AbsRaise as e:
+            cname = interp.exc_class_of(e.exc)
+            res = TupleV([K('raise'), K(getattr(cname, 'name', None) or
+                                        show(cname))])
+        # what the public API shows afterwards
+        st['step'] = 'observe'
+        obs = [interp.call(interp.get_attr(watch, 'has_started'), []),
+               interp.call(interp.get_attr(watch, 'has_stopped'), [])]
+        sp = interp.get_attr(watch, 'splits')
+        obs.append(TupleV([TupleV([interp.get_attr(x, 'elapsed'),
+                                   interp.get_attr(x, 'length')])
+                           for x in interp.iterate(sp)]))
+        try:
+            obs.append(TupleV([K('elapsed'), interp.call(
+                interp.get_attr(watch, 'elapsed'), [])]))
+        except AbsRaise as e:
+            obs.append(TupleV([K('elapsed raises')]))
+        reads = {k: tuple(v) for k, v in st['reads'].items()}
+        holder['reads'] = reads
+        return TupleV([res, TupleV(obs)])
+
+    def capture(interp):
+        return dict(holder.get('reads', {}))
+    outcomes, _i = extract(world, thunk, capture=capture, depth=6,
+                           max_paths=4096)
+    notes = inexact_notes(outcomes)
+    if notes:
+        rep.undecided('R13.seq', key, '%s: interpretation inexact: %s' % (
+            label, notes))
+        return
+    n_clock = max([sum(len(v) for v in (o.state or {}).values())
+                   for o in outcomes] or [0])
+    syms = [T('sym', 'clock%d' % i) for i in range(n_clock)]
+    extra = []
+    if has_dur:
+        extra.append(DUR)
+    if 'maximum' in kw:
+        extra.append(MAXI)
+    bad = None
+    sigs = set()
+    n = 0
+    for cvals in itertools.product(grid, repeat=len(syms)):
+        for evals in itertools.product(grid, repeat=len(extra)):
+            val = dict(zip(syms, cvals))
+            val.update(zip(extra, evals))
+            n += 1
+            try:
+                o = outcome_at(outcomes, val)
+                got = outcome_value(o, val)
+            except CannotEval as e:
+                rep.undecided('R13.seq', key, '%s: %s' % (label, e))
+                return
+            msg, sig = _seq_compare(o, got, val, prefix, method, kw, has_dur)
+            sigs.add(sig)
+            if msg and bad is None:
+                bad = (msg, {show(k): v for k, v in sorted(
+                    val.items(), key=lambda kv: show(kv[0]))})
+    if bad is None and method in ('elapsed', 'leftover', 'expired') and \
+            len(prefix) <= 2 and prefix:
+        # non-dyadic readings: equality with the reference is relaxed to
+        # the last place, the stated inequalities stay exact
+        for cvals in itertools.product(FGRID, repeat=len(syms)):
+            for evals in itertools.product(FGRID, repeat=len(extra)):
+                val = dict(zip(syms, cvals))
+                val.update(zip(extra, evals))
+                n += 1
+                try:
+                    o = outcome_at(outcomes, val)
+                    got = outcome_value(o, val)
+                except CannotEval as e:
+                    rep.undecided('R13.seq', key, '%s: %s' % (label, e))
+                    return
+                APPROX[0] = True
+                try:
+                    msg, sig = _seq_compare(o, got, val, prefix, method, kw,
+                                            has_dur)
+                finally:
+                    APPROX[0] = False
+                if msg and bad is None:
+                    bad = (msg, {show(k): v for k, v in sorted(
+                        val.items(), key=lambda kv: show(kv[0]))})
+    rep.evaluations += n
+    for s_ in sorted(sigs)[:4]:
+        rep.case({'case': label, 'outcome': s_}, (label, s_))
+    rep.check('R13.seq', key, bad is None,
+              '%s: %s' % (label, 'agrees with the watch of the property on '
+                          '%d clock / argument valuations' % n
+                          if bad is None else '%s for %s' % bad),
+              case=label)
+
+
+def _seq_compare(o, got, val, prefix, method, kw, has_dur):
+    """-> (message or None, signature)"""
+    if got[0] != 'return':
+        return ('the driver itself raises %s' % (got[1],), 'driver-raise')
+    (kind, result), obs = got[1][0], got[1][1]
+    reads = {k: [val[t] for t in v] for k, v in (o.state or {}).items()}
+    ref = RefWatch(val.get(DUR) if has_dur else None)
+    try:
+        for i, m in enumerate(prefix):
+            try:
+                ref.call(m, {}, reads.get(i, []))
+            except RuntimeError:
+                pass
+        args = {k: (val[MAXI] if v == 'M' else v) for k, v in kw.items()}
+        try:
+            want = ('return', ref.call(method, args, reads.get('call', [])))
+        except RuntimeError:
+            want = ('raise', 'RuntimeError')
+        want_obs = ref.observe(reads.get('observe', []))
+    except AnalysisError as e:
+        return (str(e), 'no-reading')
+    sig = want[0] + (':' + (want[1] if isinstance(want[1], str) else
+                            type(want[1]).__name__))
+    if kind != want[0]:
+        return ('the call %s %s, required %s %s' % (
+            'returns' if kind == 'return' else 'raises', result,
+            'a return of' if want[0] == 'return' else 'raise', want[1]), sig)
+    if kind == 'raise':
+        if result != want[1]:
+            return ('raises %s, required %s' % (result, want[1]), sig)
+    else:
+        w = want[1]
+        if w == 'self':
+            if result != '<the watch itself>':
+                return ('returns %r, required the watch itself' % (result,),
+                        sig)
+        elif w == 'falsy':
+            if result:
+                return ('returns %r, required a falsy value' % (result,),
+                        sig)
+        elif isinstance(w, tuple) and w[0] == 'split':
+            if not (isinstance(result, tuple) and result[0] == '<split>' and
+                    _close(result[1], w[1]) and _close(result[2], w[2])):
+                return ('returns %r, required a split (elapsed %r, length '
+                        '%r)' % (result, w[1], w[2]), sig)
+        elif isinstance(w, tuple) and w[0] == 'splits':
+            if not (isinstance(result, tuple) and result[0] == '<splits>'
+                    and result[1] == len(w[1])):
+                return ('splits gives %r, required %d splits' % (
+                    result, len(w[1])), sig)
+        elif isinstance(w, bool) or w is None:
+            if result is not w:
+                return ('returns %r, required %r' % (result, w), sig)
+        elif not _close(result, w):
+            return ('returns %r, required %r' % (result, w), sig)
+        elif method == 'elapsed' and 'maximum' in kw and \
+                result > max(0.0, val[MAXI]) and val[MAXI] >= 0:
+            return ('returns %r, above the requested maximum %r' % (
+                result, val[MAXI]), sig)
+    # the watch afterwards, through the public API
+    if bool(obs[0]) is not want_obs[0] or bool(obs[1]) is not want_obs[1]:
+        return ('afterwards has_started/has_stopped are %r/%r, required '
+                '%r/%r' % (obs[0], obs[1], want_obs[0], want_obs[1]), sig)
+    if len(obs[2]) != len(want_obs[2]) or not all(
+            _close(a[0], b[0]) and _close(a[1], b[1])
+            for a, b in zip(obs[2], want_obs[2])):
+        return ('afterwards the splits are %r, required %r' % (
+            tuple(obs[2]), want_obs[2]), sig)
+    if len(want_obs) == 4:
+        if not (obs[3][0] == 'elapsed' and _close(obs[3][1], want_obs[3])):
+            return ('afterwards elapsed() gives %r, required %r' % (
+                obs[3], want_obs[3]), sig)
+    elif obs[3][0] != 'elapsed raises':
+        return ('afterwards elapsed() gives %r on a watch that was never '
+                'started' % (obs[3],), sig)
+    return (None, sig)
+
+
+def _close(a, b):
+    if isinstance(a, bool) or isinstance(b, bool):
+        return a is b
+    if APPROX[0] and isinstance(a, float) and isinstance(b, float):
+        import math
+        return a >= 0 and math.isclose(a, b, rel_tol=1e-9, abs_tol=1e-15)
+    try:
+        return a == b
+    except Exception:
+        return False
